@@ -78,6 +78,33 @@ type Gen struct {
 	defCtr int64
 	counts map[string]map[string]int // kind -> result -> n
 	k3     float64                   // probability that a call targets the module-registered service (known finding K3)
+	// C19: every generated history exports once near its end (and with ~3 % anywhere);
+	// about half of the histories use only 20-byte provider addresses so that the full
+	// JSON round trip is exercised (the others re-confirm K4)
+	provPool []int64
+	nIssued  int
+	exportAt int
+}
+
+var providerAtoms20 = []int64{121, 126, 127, 101}
+
+// planExport decides, from the history's rng, the provider pool and the final export step.
+func (g *Gen) planExport(nops int) {
+	g.provPool = providerAtoms
+	if g.rng.Intn(2) == 0 {
+		g.provPool = providerAtoms20
+	}
+	g.exportAt = nops - 1 - g.rng.Intn(4)
+	if g.exportAt < 0 {
+		g.exportAt = 0
+	}
+}
+
+func (g *Gen) provs() []int64 {
+	if g.provPool == nil {
+		return providerAtoms
+	}
+	return g.provPool
 }
 
 func pick(rng *rand.Rand, l []int64) int64 { return l[rng.Intn(len(l))] }
@@ -210,7 +237,7 @@ func (g *Gen) snapCtxs() []string {
 func (g *Gen) bindingTarget(want int) (svc, prov, owner int64, ok bool) {
 	ks := g.snapBindings()
 	if len(ks) == 0 || g.chance(0.05) {
-		return pick(g.rng, svcAtoms), pick(g.rng, providerAtoms), pick(g.rng, ownerAtoms), false
+		return pick(g.rng, svcAtoms), pick(g.rng, g.provs()), pick(g.rng, ownerAtoms), false
 	}
 	if want != 0 && g.chance(0.8) {
 		var sel []bindKey
@@ -250,6 +277,20 @@ func (g *Gen) next() *Op {
 	r := g.r
 	s := r.snap
 	a := r.a
+	g.nIssued++
+	if g.provPool != nil {
+		// exports are more likely where there is something to hand back
+		p := 0.02
+		if len(s.ActID) > 0 {
+			p += 0.04
+		}
+		if len(s.Earned) > 0 {
+			p += 0.03
+		}
+		if g.nIssued-1 == g.exportAt || g.chance(p) {
+			return &Op{Kind: "export"}
+		}
+	}
 	if g.chance(g.tempo) {
 		dts := []int64{0, int64(5 * time.Second), int64(5 * time.Second), int64(r.cfg.Arb + r.cfg.Compl), int64(time.Second)}
 		return &Op{Kind: "endblock", Dt: dts[rng.Intn(len(dts))]}
@@ -292,7 +333,7 @@ func (g *Gen) next() *Op {
 		}
 		return o
 	case x < 20:
-		o := &Op{Kind: "bind", Svc: pick(rng, svcAtoms), Prov: pick(rng, providerAtoms), Owner: pick(rng, ownerAtoms), QoS: uint64(1 + rng.Intn(int(r.cfg.MaxTimeout)))}
+		o := &Op{Kind: "bind", Svc: pick(rng, svcAtoms), Prov: pick(rng, g.provs()), Owner: pick(rng, ownerAtoms), QoS: uint64(1 + rng.Intn(int(r.cfg.MaxTimeout)))}
 		if len(s.Defs) > 0 && g.chance(0.9) {
 			var names []string
 			for n := range s.Defs {
@@ -377,7 +418,7 @@ func (g *Gen) next() *Op {
 					o.Owner = a.atomOfAddr([]byte(ow))
 				}
 			} else {
-				o.Prov = pick(rng, providerAtoms)
+				o.Prov = pick(rng, g.provs())
 			}
 		} else if len(s.OwnerEarned) > 0 && g.chance(0.8) {
 			var os []string
@@ -462,7 +503,7 @@ func (g *Gen) call(module bool) *Op {
 		if len(pool) > 0 && g.chance(0.85) {
 			p = pool[rng.Intn(len(pool))]
 		} else {
-			p = pick(rng, providerAtoms)
+			p = pick(rng, g.provs())
 		}
 		if seen[p] && !g.chance(0.03) {
 			continue
@@ -627,7 +668,7 @@ func (g *Gen) respond() *Op {
 	o.Batch = ridBatch(rid)
 	o.RHeight = int64(beU64(b[48:56]))
 	o.RIndex = int64(int16(uint16(b[56])<<8 | uint16(b[57])))
-	o.Who = pick(rng, providerAtoms)
+	o.Who = pick(rng, g.provs())
 	if q, ok := s.Reqs[rid]; ok && g.chance(0.92) {
 		o.Who = a.atomOfAddr(q.Provider)
 	}
@@ -721,7 +762,7 @@ func (g *Gen) ctxOp() *Op {
 				}
 			}
 			for i := 0; i < n; i++ {
-				p := pick(rng, providerAtoms)
+				p := pick(rng, g.provs())
 				if len(pool) > 0 && g.chance(0.7) {
 					p = pool[rng.Intn(len(pool))]
 				}
